@@ -496,7 +496,11 @@ def chunks(it, size):
 
 
 def case_hash(case) -> int:
-    return int.from_bytes(hashlib.blake2b(json.dumps(case, sort_keys=True, default=str).encode(), digest_size=8).digest(), "big")
+    try:
+        text = json.dumps(case, sort_keys=True, default=str)
+    except TypeError:          # e.g. mixed key types in a junk document
+        text = repr(case)
+    return int.from_bytes(hashlib.blake2b(text.encode(), digest_size=8).digest(), "big")
 
 
 def run_parallel(prop, case_iter, chunk_size=400, max_mismatch=25):
